@@ -477,8 +477,8 @@ def run_family(name, dmax, rec):
 
 # ------------------------------------------------------------------ generators
 
-TITLE_ALPHABET = "AbC xyz09_-.,;!'\"()+&%#{}$@~=<>|äЖ中  "
-TEXT_ALPHABET = "ab XY019'\"\\\n\t{}%#()=+-*/&<>,;:!?~$@[]^_`|éЖ中"
+TITLE_ALPHABET = "AbC xyz09_-.,;!'\"()+&%#{}$@~=<>|äЖ中📊𝒳  "
+TEXT_ALPHABET = "ab XY019'\"\\\n\t{}%#()=+-*/&<>,;:!?~$@[]^_`|éЖ中📊𝒳"
 HOSTILE_TEXTS = ["it's", 'say "hi"', 'back\\slash', 'a\nb', '{0}', '{titles}', '{functions}', '%s %d', '100%', "'''", '"""', '\\', '\\n', "'", '"',
                  '#DIV/0!', '#N/A', '#VALUE!', '#REF!', "' + str(1) + '", '" + "', 'x = 1', 'import os', 'None', 'True', 'nan', 'inf', '1e400',
                  '{', '}', '{{', '}}', '\\x00', '\\u0041', 'tab\there', ' lead', 'trail ', 'a' * 300, '=', "'=1+1", '-', '+1', '@A1']
@@ -495,7 +495,7 @@ UNSUPPORTED = ['=FOO(1)', '=sum(1)', '=SQRT(4)', '=A1^2', '=ABS(-1)', '=LEN("a")
 def wb_strategy(adversarial):
     from hypothesis import strategies as st
     safe_title_chars = [c for c in TITLE_ALPHABET if c not in '\\/?*[]:']
-    title = st.one_of(st.sampled_from(['S', 'Data', 'My Sheet', "it's", 'a!b', '1', '0', 'A1', 'TRUE', "o'clock \"x\"", '{0}', '%s', 'Лист1', 'S-1', 'a.b', '#', 'x y z']),
+    title = st.one_of(st.sampled_from(['S', 'Data', 'My Sheet', 'KPI 📊 2024', '𝒳', "it's", 'a!b', '1', '0', 'A1', 'TRUE', "o'clock \"x\"", '{0}', '%s', 'Лист1', 'S-1', 'a.b', '#', 'x y z']),
                       st.text(alphabet=safe_title_chars, min_size=1, max_size=12))
     title = title.filter(lambda t: t.strip() == t and t and not t.startswith("'") and not t.endswith("'"))
     text = st.one_of(st.sampled_from(HOSTILE_TEXTS), st.text(alphabet=TEXT_ALPHABET, min_size=1, max_size=20)).filter(lambda s: s and not s.startswith('='))
@@ -505,7 +505,9 @@ def wb_strategy(adversarial):
                      st.datetimes(datetime.datetime(1900, 3, 1), datetime.datetime(9999, 12, 31)).map(lambda d: {'$dt': d.replace(microsecond=0).isoformat()}),
                      st.times().map(lambda t: {'$t': t.replace(microsecond=0).isoformat()}),
                      st.integers(0, 10 ** 6).map(lambda s: {'$td': float(s)}))
-    const = st.one_of(num, num, st.booleans(), text, text, date)
+    rawnum = st.sampled_from(['1' + '0' * 309, '9' * 400, '-' + '7' * 320, '1E+999', '-1E+999', '1.5E-400', '0.1000000000000000055511151231257827',
+                            '12345678901234567890', '1' + '0' * 22]).map(lambda t: {'$rawnum': t})
+    const = st.one_of(num, num, st.booleans(), text, text, date, rawnum)
     seed = c05.seed_strategy()
     rnd = st.randoms(use_true_random=False)
     valid_formula = st.tuples(seed, rnd).map(lambda t: c05.render_tokens(c05.ast_tokens(t[0]), [t[1].choice(['', '', ' ']) for _ in range(80)]))
